@@ -1874,8 +1874,8 @@ void Router::markPolylineConnectorsNeedingReroutingForDeletedObstacle(
             continue;
         }
 
-        Point start = conn->m_route.ps[0];
-        Point end = conn->m_route.ps[conn->m_route.size() - 1];
+        const Point connStart = conn->m_route.ps[0];
+        const Point connEnd = conn->m_route.ps[conn->m_route.size() - 1];
 
         double conndist = conn->m_route_dist;
 
@@ -1889,6 +1889,11 @@ void Router::markPolylineConnectorsNeedingReroutingForDeletedObstacle(
         {
             const Point& p1 = i->point;
             const Point& p2 = i->shNext->point;
+
+            // The rotation case below transforms start and end into the
+            // frame of this edge, so take fresh copies for every edge.
+            Point start = connStart;
+            Point end = connEnd;
 
             double offy;
             double a;
